@@ -393,7 +393,7 @@ def replay_states(states, extra):
         if sample is None and (c['tr'][0] != 'same' or c['fs'] != 'none'):
             sample = {'answers': kw['answers'], 'inputs': inputs, 'input_positions': kw['input_positions'],
                       'even_odd': kw['even_odd'], 'allowed': allowed, 'observed': obs}
-        if obs not in allowed:
+        if obs not in allowed and len(allowed) < 4:          # all four classes allowed = no prediction (statement silent)
             if len(bad) < 40:
                 bad.append(make_signature(io['aut'], io['stu'], io['cfg'], io['pos'], allowed, obs, detail, kw, scripts,
                                           inputs, 'tlc:' + c['kind']))
@@ -428,7 +428,7 @@ def replay_histories(states, extra):
             allowed = outs[i]
             trail.append({'grader': call['g'], 'inputs': inputs, 'observed': obs})
             keys.add(('hist', c['gk'], c['sid'], i, call['g'], '/'.join(sorted(allowed))))
-            if obs not in allowed:
+            if obs not in allowed and len(allowed) < 4:
                 if len(bad) < 40:
                     sig = make_signature(g['aut'], call['stu'], g['cfg'], call['pos'], allowed, obs, detail, kw, scripts, inputs,
                                          'tlc:hist')
